@@ -18,7 +18,7 @@ Vectors(u) ==
        \cup {<<a, b, c>> : a \in PairSet(u), b \in PairSet(u), c \in PairSet(u)}
 
 J(x) == IF IsNaN(x) THEN "nan" ELSE IF IsInf(x) THEN (IF x[1] > 0 THEN "inf" ELSE "-inf") ELSE IF x[2] = 1 THEN x[1] ELSE x
-QLevels == <<Frac(1, 4), Frac(9, 10)>>
+QLevels == <<Frac(1, 4), Frac(9, 10), Frac(39, 40), Frac(1, 8)>>      \* the last two are not whole percents
 
 obsSeq == [k \in DOMAIN v |-> v[k][1]]
 fcstSeq == [k \in DOMAIN v |-> v[k][2]]
